@@ -52,9 +52,9 @@ def run(tier, seed):
     st2, kinds2, cases2 = c01.run_conform(chk, cpairs[:(12 if quick else 200)], 8 if quick else 12, 1600 if quick else 9000, 'macro')
     # ill-formed calls must be diagnosed
     bad_items = []
-    for i in range(12 if quick else 100):
+    for i in range(18 if quick else 150):
         s = rng.randrange(1 << 30)
-        kind = 'arity' if i % 2 else 'kind'
+        kind = ('arity', 'kind', 'surplus')[i % 3]
         p, src, twin, tsrc = genprog.gen_macro_program(s, bad=kind)
         bad_items.append(('bad-%s:%d' % (kind, s), src, ['-O1']))
     bad = runner.compile_programs(bad_items, want=('machine', 'codegen'))
